@@ -241,6 +241,12 @@ def gen_level(rng, path, depth, with_pv=False):
                 a["vp"] = I64
             elif with_pv and chance(rng, 0.5) and a.get("num") in (None, (1, 3)):
                 a["pv"] = [(b"fast", False), (b"slow", False), (b"faster", False), (b"secret", True)][:rng.randrange(2, 5)]
+                # aliases of possible values are in the parser's language like the names, under ignore_case in any letter
+                # case (PossibleValue::matches; seeded change seed3/C10-2 compared aliases exactly)
+                if chance(rng, 0.5):
+                    a["pv_alias"] = {b"fast": b"quick"} if chance(rng, 0.5) else {b"slow": b"lazy", b"fast": b"quick"}
+                if chance(rng, 0.5):
+                    a["flags"].add("icase")
         if chance(rng, 0.06):
             a["flags"].add("hide")
         c["args"].append(a)
@@ -344,7 +350,7 @@ def good_value(rng, a):
     if a.get("vp") == I64:
         return pick(rng, [b"1", b"0", b"300", b"7", b"42", b"299"])
     if a.get("pv"):
-        return pick(rng, [n for n, hid in a["pv"]])
+        return pick(rng, [n for n, hid in a["pv"]] + sorted(a.get("pv_alias", {}).values()))
     return pick(rng, C_VALS)
 
 
@@ -863,6 +869,25 @@ def directed_faultfree():
                   {"id": b"q", "short": "q", "aliases": [(b"quiet", False)], "action": "settrue", "flags": set()}]}
     for ln in ([b"--output", b"a.out"], [b"--output=a.out"], [b"--out", b"x", b"--quiet"], [b"-q", b"-o", b"x"], [b"--quiet"]):
         out.append(annotate(case_of(c, [b"prog"] + ln), ["ok"], "none"))
+    # a GLOBAL setting of the root (args_override_self, infer_long_args, infer_subcommands) relaxes the rules at every depth
+    # of the tree, not only in the root's direct subcommands (seeded change seed3/C10-3 stopped the propagation there)
+    def url():
+        return {"id": b"url", "long": b"url", "action": "set", "flags": set()}
+
+    def lvl(n, subs):
+        return {"name": n, "about": b"A:" + n, "args": [url()], "groups": [], "subs": subs, "settings": [], "aliases": []}
+    for setting, lines in (("args_override_self", ([b"--url", b"a", b"--url", b"b"],
+                                                   [b"remote", b"--url", b"a", b"--url", b"b"],
+                                                   [b"remote", b"add", b"--url", b"a", b"--url", b"b"],
+                                                   [b"remote", b"add", b"origin", b"--url=a", b"--url=b", b"--url", b"c"])),
+                           ("infer_long_args", ([b"--ur", b"a"], [b"remote", b"--ur", b"a"], [b"remote", b"add", b"--ur", b"a"],
+                                                [b"remote", b"add", b"origin", b"--u=a"])),
+                           ("infer_subcommands", ([b"rem"], [b"rem", b"ad"], [b"remote", b"ad", b"--url", b"a"],
+                                                  [b"r", b"a", b"origin"], [b"remote", b"add", b"ori"]))):
+        c = lvl(b"p", [lvl(b"remote", [lvl(b"add", [lvl(b"origin", [])])])])
+        c["settings"] = [setting]
+        for ln in lines:
+            out.append(annotate(case_of(c, [b"prog"] + list(ln)), ["ok"], "none"))
     c = {"name": b"p", "about": b"A:p", "groups": [], "aliases": [], "settings": ["allow_missing_positional"],
          "args": [pos(b"profile"), pos(b"target", flags={"required"})], "subs": [sub(b"run")]}
     for ln in ([b"web", b"run"], [b"web"], [b"prod", b"web", b"run"], [b"prod", b"web"], [b"web", b"run", b"--force"]):
@@ -1295,7 +1320,10 @@ def flag_oracle(stats):
 def pv_item(a):
     items = []
     for n, hid in a["pv"]:
-        items.append("(hidden %s)" % hexs(n) if hid else hexs(n))
+        if not hid and n in a.get("pv_alias", {}):
+            items.append("(alias %s %s)" % (hexs(n), hexs(a["pv_alias"][n])))
+        else:
+            items.append("(hidden %s)" % hexs(n) if hid else hexs(n))
     return "(x-pv %s)" % " ".join(items)
 
 
@@ -1338,7 +1366,7 @@ def gen_sugg(rng, n, dist):
             continue
         li = rng.randrange(len(levels))
         c, seq = levels[li]
-        kind = pick(rng, ["long", "long", "sublong", "subname", "subname", "pv", "pv", "dashdash", "missing_sub"])
+        kind = pick(rng, ["long", "long", "sublong", "subname", "subname", "pv", "pv", "pv_case", "dashdash", "missing_sub"])
         newlevels = None
         if kind == "long":
             base = pick(rng, sorted(level_longs(c)))
@@ -1378,12 +1406,31 @@ def gen_sugg(rng, n, dist):
                 continue
             it = pick(rng, its)
             w = typo(rng, pick(rng, [n_ for n_, _ in it["arg"]["pv"]]))
-            if w in [n_ for n_, _ in it["arg"]["pv"]] or not w or w.startswith(b"-"):
+            lang = [n_ for n_, _ in it["arg"]["pv"]] + list(it["arg"].get("pv_alias", {}).values())
+            if w.lower() in [x.lower() for x in lang] or not w or w.startswith(b"-"):
                 continue
             new = dict(it)
             new["toks"] = [it["toks"][0], w] + it["toks"][2:]
             i = seq.index(it)
             newlevels = with_level(levels, li, seq[:i] + [new] + seq[i + 1:])
+        elif kind == "pv_case":
+            # NOT a fault: under ignore_case a name or an alias of a possible value in another letter case is a value
+            its = [it for it in seq if it.get("arg") and it["arg"].get("pv") and "icase" in it["arg"]["flags"]
+                   and it["k"] >= 1 and not it["attached"]]
+            if not its:
+                continue
+            it = pick(rng, its)
+            lang = [n_ for n_, _ in it["arg"]["pv"]] + list(it["arg"].get("pv_alias", {}).values())
+            w = pick(rng, lang)
+            w = pick(rng, [w.upper(), w.capitalize(), w[:-1] + w[-1:].upper()])
+            new = dict(it)
+            new["toks"] = [it["toks"][0], w] + it["toks"][2:]
+            i = seq.index(it)
+            newlevels = with_level(levels, li, seq[:i] + [new] + seq[i + 1:])
+            dist[kind] += 1
+            text = "(c10-sugg %s (argv%s))" % (cmd_sx_with_pv(root), "".join(" " + hexs(t) for t in argv_of(newlevels)))
+            out.append(annotate(text, ["ok"], kind, chain(newlevels, li)))
+            continue
         elif kind == "dashdash":
             if not c["subs"] or (seq and seq[-1]["kind"] == "sub"):
                 continue
@@ -1422,6 +1469,9 @@ def sugg_oracle(stats):
     from ..parse_streams import cmd_of_sx
 
     def oracle(case, impl):
+        ann0 = annotation(case)
+        if ann0 is not None and ann0["kinds"] == ["ok"] and impl is not None and impl.startswith("err "):
+            return "a line that breaks no rule was rejected (%s): %s" % (ann0["fault"], impl.split(" (")[0])
         if impl is None or not impl.startswith("err "):
             stats[(impl or "abort").split(" ")[0]] += 1
             return None
